@@ -235,12 +235,13 @@ pub fn decode_nal<'a>(nal_unit: &'a [u8]) -> Result<Cow<'a, [u8]>, std::io::Erro
         i: 0,
         max_fill: usize::MAX, // to borrow if at all possible.
     };
+    let payload = nal_unit.get(1..).unwrap_or_default();
     let buf = reader.fill_buf()?;
-    if buf.len() + 1 == nal_unit.len() {
-        return Ok(Cow::Borrowed(&nal_unit[1..]));
+    if buf.len() == payload.len() {
+        return Ok(Cow::Borrowed(payload));
     }
     // Upper bound estimate; skipping the NAL header and at least one emulation prevention byte.
-    let mut dst = Vec::with_capacity(nal_unit.len() - 2);
+    let mut dst = Vec::with_capacity(payload.len() - 1);
     loop {
         let buf = reader.fill_buf()?;
         if buf.is_empty() {
